@@ -110,7 +110,7 @@ static std::string fen4(const Position& p)
 
 // ---------------------------------------------------------------- game walks
 // policy: 0 uniform, 1 capture-biased, 2 shuffle (prefer undoing own last move: builds repetitions),
-//         3 quiet-biased (long reversible play), 4 promotion/ep/castle hungry, 5 mate/stalemate seeking
+//         3 quiet-biased (long reversible play), 4 promotion/ep/castle hungry, 5 mate/stalemate seeking, 6 castle-then-quiet
 static Move pick(Position& p, const MoveVec& mv, std::mt19937_64& rng, int policy, Move last_own)
 {
     auto rnd = [&](int n) { return int(rng() % uint64_t(n)); };
@@ -143,6 +143,24 @@ static Move pick(Position& p, const MoveVec& mv, std::mt19937_64& rng, int polic
                 (pawn && std::abs(int(to(c)) - int(from(c))) == 16 && rnd(2)))
                 if (rnd(3)) return c;
         }
+    if (policy == 6)   // castle as soon as possible, otherwise quiet piece moves: castling inside long reversible stretches
+    {
+        for (int i = 0; i < mv.n; ++i)
+            if (castling(mv.list[i]) != NO_CASTLING && rnd(4)) return mv.list[i];
+        for (int t = 0; t < 3 * mv.n; ++t)
+        {
+            Move c = mv.list[rnd(mv.n)];
+            if (castling(c) != NO_CASTLING) continue;
+            if (make_piece_kind(p.piece_at(from(c))) != PAWN && make_piece_kind(p.piece_at(from(c))) != KING && make_piece_kind(p.piece_at(from(c))) != ROOK &&
+                p.piece_at(to(c)) == NO_PIECE)
+                return c;
+        }
+        for (int t = 0; t < 2 * mv.n; ++t)
+        {
+            Move c = mv.list[rnd(mv.n)];
+            if (castling(c) == NO_CASTLING && make_piece_kind(p.piece_at(from(c))) != PAWN && p.piece_at(to(c)) == NO_PIECE) return c;
+        }
+    }
     if (policy == 5)   // end the game if it can be ended: mate first, then stalemate (generator only; no verdict relies on it)
     {
         for (int pass = 0; pass < 2; ++pass)
@@ -182,7 +200,7 @@ int cmd_games(const Args& a)
         const std::string root = a.i("roots-seq", 0) ? roots[g % roots.size()] : roots[rng() % roots.size()];
         Position p(root);
         out.put("{\"e\":\"reset\",\"fen\":" + jstr(p.fen()) + "}");
-        int policy = policy_opt >= 0 ? policy_opt : int(rng() % 6);
+        int policy = policy_opt >= 0 ? policy_opt : int(rng() % 7);
         std::map<std::string, int> seen;
         Move last_own[2] = {NO_MOVE, NO_MOVE};
         for (int ply = 0; ply <= maxply; ++ply)
@@ -369,6 +387,16 @@ int cmd_replay_legal(const Args& a)
                     if (p.uci(mv.list[k]) == strs[0]) m = mv.list[k];
                 if (m == NO_MOVE) continue;  // already reported as missing
                 napply++;
+                {
+                    // C16: the text the engine prints for the move is the spec's, and parses back to the very same move
+                    Move back = p.parse_uci(strs[0]);
+                    if (back != m)
+                    {
+                        bad++;
+                        fprintf(out, "{\"prop\":\"C16\",\"kind\":\"uci_roundtrip\",\"fen\":%s,\"detail\":{\"m\":%s,\"parsed_back_word\":%u,\"move_word\":%u}}\n",
+                                jstr(fen).c_str(), jstr(strs[0]).c_str(), (unsigned)back, (unsigned)m);
+                    }
+                }
                 bool cap = p.move_is_capture(m), quiet = p.move_is_quiet(m), chk = p.move_gives_check(m);
                 if (cap != wcap || quiet != wquiet || chk != wchk)
                 {
